@@ -14,7 +14,7 @@ Print Assumptions C06_crash_any_instant.
    lo+1..hi cut at the segment names, the newest snapshot marker m is valid (<= the last saved commit), the
    first live segment does not start after m, and m has its snap file and its checkpoint with the state at m:
    then the restart succeeds and serves the state after applying entries 1..hi in order *)
-Theorem C06_restart_of_wellformed_world : forall ss lo hi sf cks m,
+Theorem C06_restart_of_wellformed_world : forall ss lo hi sf cks m, local_recs (all_recs ss) ->
   seg_chain lo ss hi -> lo = lo_of ss ->
   In m (markers (all_recs ss)) -> (forall i, In i (markers (all_recs ss)) -> i <= m) ->
   (forall i, In i (markers (all_recs ss)) -> i <= last_commit (all_recs ss)) ->
@@ -36,7 +36,7 @@ Print Assumptions C06_restart_of_wellformed_world.
    restore the engine from its checkpoint, read the WAL back from it, replay) succeeds, and the state it serves is
    the result of applying the entries 1..k in order, with k at least the last acknowledged index and at most the
    last proposed one. The engine content found after the death is never used. *)
-Theorem C06_recover_correct : forall c evs s, fixed c ->
+Theorem C06_recover_correct : forall c evs s, fixed c -> local_only evs ->
   run c init_state evs = Ok s -> sched_ok c init_state evs ->
   forall j extra ss, image s j extra = Some ss ->
   exists k, recover ss (snapfiles s) (ckpts s) = Ok (range 0 k) /\ acked s <= k <= proposed s.
@@ -47,11 +47,11 @@ Print Assumptions C06_recover_correct.
    computed before every event and the event log is rejected (reason R_SCHED) when it is false, so for the runs the
    correspondence is established on the hypothesis is a checked fact, and the evidence records the largest number
    of snapshot goroutines seen in the window at a decision of the snap directory purge *)
-Theorem C06_recover_correct_on_checked_runs : forall c evs s, fixed c ->
+Theorem C06_recover_correct_on_checked_runs : forall c evs s, fixed c -> local_only evs ->
   run c init_state evs = Ok s -> sched_holds_run c init_state evs = true ->
   forall j extra ss, image s j extra = Some ss ->
   exists k, recover ss (snapfiles s) (ckpts s) = Ok (range 0 k) /\ acked s <= k <= proposed s.
-Proof. intros c evs s Hf Hr Hs. eapply recover_correct; eauto. apply sched_holds_run_ok. exact Hs. Qed.
+Proof. intros c evs s Hf Hl Hr Hs. eapply recover_correct; eauto. apply sched_holds_run_ok. exact Hs. Qed.
 Print Assumptions C06_recover_correct_on_checked_runs.
 
 (* the same property without the schedule hypothesis is false of the model (C06_two_snapshots_in_flight_refuted below) *)
@@ -64,7 +64,7 @@ Definition C06_full : Prop := forall c evs s, fixed c ->
    has its snap file and its checkpoint, and the checkpoint holds the state at that index; (I3) the live WAL
    segments do not start after that snapshot and still hold its marker; (I4) every acknowledged entry is in every
    crash image of the WAL *)
-Theorem C06_ordering_invariants : forall c evs s, fixed c ->
+Theorem C06_ordering_invariants : forall c evs s, fixed c -> local_only evs ->
   run c init_state evs = Ok s -> sched_ok c init_state evs ->
   I1_I2_newest_marker_has_file_and_checkpoint s /\ I3_wal_not_purged_past_newest_snapshot s
   /\ I4_acknowledged_entries_are_in_every_crash_image s.
@@ -93,7 +93,7 @@ Proof. exact restart_succeeds. Qed.
 Print Assumptions C06_restart_succeeds.
 
 (* the invariant is what every reachable state satisfies (so C06_restart_succeeds applies after every death) *)
-Theorem C06_invariant_reachable : forall c evs s, fixed c ->
+Theorem C06_invariant_reachable : forall c evs s, fixed c -> local_only evs ->
   sched_ok c init_state evs -> run c init_state evs = Ok s -> Inv c s.
 Proof. exact inv_reachable. Qed.
 Print Assumptions C06_invariant_reachable.
